@@ -492,8 +492,10 @@ class Kernel(object):
             if name not in f['ops']:
                 return None
             pth = ev[3]
-            if isinstance(pth, str) and posixpath.basename(pth) == f['basename']:
-                return f['errno']
+            if isinstance(pth, str):
+                b = posixpath.basename(pth)
+                if b == f.get('basename') or ('prefix' in f and b.startswith(f['prefix']) and b.endswith(f.get('suffix', ''))):
+                    return f['errno']
             return None
         raise HarnessError('unknown condition %r' % (what,))
 
